@@ -133,7 +133,7 @@ def build_lib(flavor, tools=False):
 
 
 def harness_obj(name, src, flavor, lang_flags, bdir):
-    deps = [src] + glob.glob(os.path.join(VERIF, "vlib", "*.h")) + \
+    deps = [src] + glob.glob(os.path.join(VERIF, "vlib", "*.h")) + glob.glob(os.path.join(os.path.dirname(src), "*.h")) + \
         tree_files(REPO, ["include"]) + [os.path.join(bdir, "jwt_export.h")]
     hh = hashlib.sha256()
     for pth in deps:  # content only: the library build dir changes with every tree, its generated header rarely does
